@@ -11,6 +11,7 @@ import (
 type instCtx struct {
 	e       *Engine
 	mulPool map[string][]*Term // ground x occurring as bvmul(x, c), keyed by c
+	rangeStarts []*Term // ground first addresses a of range guards (k - a) <u n occurring under quantifiers
 	pool    map[*Sort][]*Term // candidate index terms by array sort of the select they occur under
 	fam     map[string][]*Term // ... and by array family (the heap component the array is a version of)
 	appArgs map[string][][]*Term
@@ -96,6 +97,33 @@ func (ic *instCtx) collect(t *Term, visited map[*Term]bool) {
 	}
 	for _, a := range t.Args {
 		ic.collect(a, visited)
+	}
+}
+
+// collectRangeStarts records the ground start address of every range guard (bvult (bvsub k a) n) under a quantifier:
+// the first byte of a range is the witness for "two ranges overlap" arguments over the allocation maps.
+func (ic *instCtx) collectRangeStarts(t *Term, visited map[*Term]bool, inQ bool) {
+	if visited[t] {
+		return
+	}
+	visited[t] = true
+	if t.Op == "forall" || t.Op == "exists" {
+		inQ = true
+	}
+	if inQ && t.Op == "bvult" && t.Args[0].Op == "bvsub" && t.Args[0].Args[0].Op == "bound" && !t.Args[0].Args[1].hasBV {
+		a := t.Args[0].Args[1]
+		dup := false
+		for _, x := range ic.rangeStarts {
+			if x == a {
+				dup = true
+			}
+		}
+		if !dup && len(ic.rangeStarts) < 24 {
+			ic.rangeStarts = append(ic.rangeStarts, a)
+		}
+	}
+	for _, a := range t.Args {
+		ic.collectRangeStarts(a, visited, inQ)
 	}
 }
 
@@ -188,6 +216,11 @@ func (ic *instCtx) candidates(body, k *Term) []*Term {
 				// address-indexed ghost sets (allocation maps) are queried at the addresses of the memory they describe
 				switch f {
 				case "RA":
+					if g == nil {
+						for _, c := range ic.rangeStarts {
+							add(c)
+						}
+					}
 					for _, c := range ic.fam["M"] {
 						if g == nil {
 							add(c)
@@ -247,6 +280,34 @@ func (ic *instCtx) candidates(body, k *Term) []*Term {
 		}
 	}
 	walk(body)
+	if len(out) == 0 && k.Sort == BV64 {
+		// pure address-range statement (no memory access under the binder): instantiate at the known raw addresses
+		isRange := false
+		v2 := map[*Term]bool{}
+		var find func(t *Term)
+		find = func(t *Term) {
+			if v2[t] || !t.hasBV || isRange {
+				return
+			}
+			v2[t] = true
+			if t.Op == "bvult" && t.Args[0].Op == "bvsub" && t.Args[0].Args[0] == k {
+				isRange = true
+				return
+			}
+			for _, a := range t.Args {
+				find(a)
+			}
+		}
+		find(body)
+		if isRange {
+			for _, c := range ic.fam["M"] {
+				add(c)
+			}
+			for _, c := range ic.fam["RA"] {
+				add(c)
+			}
+		}
+	}
 	for _, s := range ic.skolems {
 		add(s)
 	}
@@ -445,6 +506,10 @@ func (e *Engine) PrepareQF(o *Obligation) []*Term {
 	vis := map[*Term]bool{}
 	for _, h := range all {
 		ic.collect(h, vis)
+	}
+	rs := map[*Term]bool{}
+	for _, h := range all {
+		ic.collectRangeStarts(h, rs, false)
 	}
 	// two rounds: instances of round 1 feed the pool for round 2
 	var out []*Term
